@@ -326,6 +326,44 @@ def check_callable_fmt(res, xs, fmt, pair):
         res.violation("C20|number_to_scientific_%s|callable-fmt" % fmt, "%s %s printed in %s with fmt=<'%%.3f' callable> as %r (plain number: %r); the converted value formats as %r" % (xs, ua, ub, got, plain, want), case, got, want)
 
 
+def _eng(v):
+    """engineering notation: exponent a multiple of three, significand 1 <= s < 1000 written with %g"""
+    import math
+
+    if v == 0:
+        return "0"
+    e3 = int(math.floor(math.log10(abs(v)) / 3.0 + 1e-9)) * 3
+    sig = Decimal(repr(v)).scaleb(-e3)
+    txt = format(sig.normalize(), "f")
+    return "%se%d" % (txt, e3)
+
+
+def check_engineering_fmt(res, xs, fmt):
+    """fmt given as a callable that writes engineering notation (10e-9, 250e3, 1e6): the typeset text denotes the number, and the
+    significand is left out only when it is exactly 1"""
+    x = float(xs)
+    res.states += 1
+    res.transitions += 1
+    res.evaluations += 1
+    res.nontrivial += 1
+    case = dict(layer="EF", x=xs, fmt=fmt)
+    txt = _eng(x)
+    try:
+        got = _fn(fmt)(x, fmt=_eng)
+        sig, ex = parse_sci(fmt, got)
+        val = (sig if sig is not None else Decimal(1)).scaleb(ex)
+        bad = None
+        if val != Decimal(xs):
+            bad = "denotes %s" % val
+        elif sig is None and Decimal(xs).scaleb(-ex) != 1:
+            bad = "omits a significand that is not 1"
+    except Exception as e:
+        got, bad = "EXC %s" % type(e).__name__, "raises / cannot be read back"
+    res.outcomes["engineering-fmt-%s" % ("ok" if bad is None else "WRONG")] += 1
+    if bad:
+        res.violation("C20|number_to_scientific_%s|callable-fmt-engineering|%s" % (fmt, bad.split(" ")[0]), "%s printed with a callable fmt that writes %r: %r %s" % (xs, txt, got, bad), case, got, xs)
+
+
 def check_param(res, mag, uname, unit, order, fmtname):
     """Reaction printed with its parameter shows magnitude (printed precision) and unit"""
     from chempy import Reaction, Substance
@@ -519,6 +557,19 @@ def run_chunk(chunk, tier):
                             if rel in (1e-5, 0.1) and lead in (1.0, 9.6):
                                 for via in FMTS:
                                     check_uncert(res, xs, repr(xe), p, via)
+        if chunk[1] == 0:
+            # uncertainties that are exact powers of ten, every decade 0 .. 21 (the negative powers are not exactly representable as
+            # doubles - 1e-12 is stored slightly below 1e-12 - so which decade "the uncertainty's last kept digit" is in is not defined
+            # sharply there; they stay with the general lattice)
+            for k in range(0, 22):
+                for xs in ("1.23456e%d" % (k + 4), "-9.87654321e%d" % (k + 6), "5e%d" % (k + 1), "1.23456e%d" % (k + 2)):
+                    for p in b["uncert_prec"]:
+                        for via in ("core",) + FMTS:
+                            check_uncert(res, xs, "1e%d" % k, p, via)
+            for xs, k0 in (("123456", 3), ("1234560.0", 3), ("7.5e6", 6), ("3.3e9", 9)):
+                for p in b["uncert_prec"]:
+                    for via in ("core",) + FMTS:
+                        check_uncert(res, xs, "1e%d" % k0, p, via)
         res.sample(dict(layer="U", x=m + "e3", xe=repr(float(m) * 1e3 * 1e-3 * 2.9), p=2))
     elif chunk[0] == "R":
         check_roman(res)
@@ -533,6 +584,10 @@ def run_chunk(chunk, tier):
             for fmt in FMTS:
                 for pair in range(len(UQ_PAIRS)):
                     check_callable_fmt(res, xs, fmt, pair)
+        for e in range(-12, 13):
+            for mant in ("1", "2.5", "-1", "9.75"):
+                for fmt in FMTS:
+                    check_engineering_fmt(res, "%se%d" % (mant, e), fmt)
         for xs, xes in (("315.0", "1.79e-3"), ("2.5", "0.125"), ("1.4142e-7", "3e-10"), ("-7.25e4", "12.5")):
             for p in (1, 2):
                 for fmt in FMTS:
@@ -588,6 +643,8 @@ def replay(case):
         check_param_system(res, [(n, pool[n]) for n in case["units"]], case["fmt"])
     elif L == "CF":
         check_callable_fmt(res, case["x"], case["fmt"], case["pair"])
+    elif L == "EF":
+        check_engineering_fmt(res, case["x"], case["fmt"])
     elif L == "UQ":
         check_uncertain_quantity(res, case["x"], case["xe"], case["p"], case["fmt"], case["pair"], case["how"])
     elif L == "Q":
